@@ -23,7 +23,8 @@ THEOREMS = ['bin_roundtrip', 'bin_load_total', 'bin_resave', 'adf_roundtrip', 'a
             'xb_roundtrip_compressed_one_font', 'xb_roundtrip_compressed_two_fonts',
             'xb_compression_transparent_one_font', 'xb_compression_transparent_two_fonts', 'xb_roundtrip_any_page',
             'xb_resave_any', 'xb_resave_512', 'known_2_exact', 'known_2_refusal', 'known_2_witness_both_writers',
-            'bin_file_roundtrip', 'tnd_file_roundtrip', 'xb_file_roundtrip_one_font', 'xb_file_roundtrip_two_fonts']
+            'bin_file_roundtrip', 'tnd_file_roundtrip', 'xb_file_roundtrip_one_font', 'xb_file_roundtrip_two_fonts', 'tnd_file_resave',
+            'idf_wide_contains_idf', 'idf_roundtrip_any_width', 'idf_resave_any_width', 'known_1_exact']
 SWEEP_LEMMAS = ['C05BinProofs.from_u8_vis_sweep (256 bytes x 3 modes: a decoded attribute is visible and on font page 0)',
                 'C05AdfProofs.six_bit_sweep / expand6_idem_sweep (64 six-bit values, 256 byte values of the u8 expression r << 2 | r >> 4)',
                 'C05AdfProofs.ega_offsets_sweep (the generated EGA_COLOR_OFFSETS: 16 distinct indices below 64; EGA_PALETTE has 64 entries)',
@@ -371,6 +372,8 @@ def correspondence(ctx):
             if len(d2) > 60000: continue
             mcases.append({'kind': 'resave', 'fmt': fmt, 'data': d2, 'tail': tail, 'pic': c['pic'], 'comp': c['comp'], 'sauce': c['sauce']})
     mcases += xb512_cases(rng, by_fmt['xb'], ctx.n(10, 60))
+    mcases += [{'kind': 'resave', 'fmt': 'idf', 'data': d, 'tail': None, 'pic': None, 'comp': rng.randrange(2), 'sauce': 0, 'directed': 'idf wide'}
+               for d in idf_wide_files(rng, ctx.n(6, 40))]
     mimpl = ctx.impl(['c5resave %s %d %d %s' % (c['fmt'], c['comp'], c['sauce'], hexs(c['data'] + (c['tail'] or []))) for c in mcases], per_case_timeout=30)
     for c in mcases:
         s = sauce_of(c['fmt'], c['pic']) if c['tail'] else 'None'
@@ -409,7 +412,7 @@ def correspondence(ctx):
             oc = 'save-refused' if a == [0] else ('save-or-load-panics' if a == [-1] else (a[0] if a and isinstance(a[0], str) else ('saved+loaded' if c['kind'] == 'rt' else 'file-with-sauce:saved+loaded')))
             if a and a[0] == 1: nontrivial.add((c['fmt'], c['kind'], c['comp'], c['pic'].w, c['pic'].h, hash(tuple(c['pic'].cell_list()[:50]))))
         else:
-            if c.get('directed'): dist['xb resave ' + c['directed']] = dist.get('xb resave ' + c['directed'], 0) + 1
+            if c.get('directed'): dist['directed resave ' + c['directed']] = dist.get('directed resave ' + c['directed'], 0) + 1
             oc = 'mutated:' + ('load-refused' if a == [0] else ('panics' if a == [-1] else (a[0] if a and isinstance(a[0], str) else ('loaded+save-refused' if resave_refused(a) else 'loaded'))))
             if a and a[0] == 1: nontrivial.add((c['fmt'], 'm', hash(tuple(c['data'][-80:])), len(c['data'])))
         outcomes[oc] = outcomes.get(oc, 0) + 1
@@ -448,6 +451,26 @@ def norm_impl_file(r):
     n = v[1]; rest = v[2 + n:]
     if rest and rest[0] != 1: rest = [0]
     return [1, n] + v[2:2 + n] + rest
+
+def idf_wide_files(rng, n):
+    """hand-made IDF files whose header width exceeds the loader's 80-column layer (extension: idf_resave_any_width)"""
+    out = []
+    for k in range(n):
+        x1 = rng.choice([0, 0, 1, 5]); w = rng.choice([81, 82, 100, 160, 200, 300]); h = rng.choice([1, 2, 3])
+        x2 = x1 + w - 1
+        d = [4, 0x31, 0x2e, 0x34, x1 & 255, x1 >> 8, 0, 0, x2 & 255, x2 >> 8, (h - 1) & 255, 0]
+        left = w * h
+        while left > 0:
+            if rng.random() < 0.3:
+                cnt = min(left, rng.choice([1, 2, 5, 70, 90, 170]))
+                d += [1, 0, cnt & 255, cnt >> 8, rng.randrange(256), rng.randrange(256)]; left -= cnt
+            else:
+                ch = rng.randrange(256); at = rng.randrange(256)
+                if ch == 1 and at == 0: at = 7
+                d += [ch, at]; left -= 1
+        d += [rng.randrange(256) for _ in range(4096)] + [rng.randrange(64) for _ in range(48)]
+        out.append(d)
+    return out
 
 def xb_synth_512(rng, w, h, fh, with_font, ice, pages):
     """a hand-made uncompressed XBin file in 512-character mode; pages: 'both' | 'zero' | 'one'"""
@@ -815,6 +838,9 @@ def search(ctx, broken):
             d2 = mutate(rng, data, header_len(fmt, data)) + (tail or [])
             if len(d2) > 200000: continue
             mcases.append((fmt, comp, sauce, hexs(d2)))
+    # extension: IDF files wider than the loader's layer, XBin 512-character files (pages 0/1, with and without the font block)
+    for d in idf_wide_files(rng, ctx.n(40, 300)): mcases.append(('idf', rng.randrange(2), 0, hexs(d)))
+    for c in xb512_cases(rng, [], ctx.n(60, 400)): mcases.append(('xb', c['comp'], 0, hexs(c['data'])))
     mimpl = ctx.impl(['c5resave %s %d %d %s' % c for c in mcases], per_case_timeout=60, mem_mb=3072)
     judged = 0; skipped = {}
     for c, r in zip(mcases, mimpl):
